@@ -23,6 +23,13 @@ package structs
 //@   pure
 //@ end
 
+// reads the expression tree and returns a fresh list of column names: ASSUMED
+// to write nothing (frame only; the tree walk itself is not under contract)
+//@ func (*ValueExpr).GetFields
+//@   assumed
+//@   pure
+//@ end
+
 // C02 (A AND B = intersection, A OR B = union), JoinRequest.  Proved below for
 // every request size (visited-set rule for ranges over Go maps): the blocks of
 // the joined request are exactly the intersection / union, and in the OR branch
